@@ -176,10 +176,22 @@ def check(pid, tier, seed, specs, plan, functions, bounds, assumptions, rule, sl
 
 
 def _replay_failure(run, r, wsdir, sp, h, item, logdir, root):
+    # Kani switches CBMC's formula slicing off for concrete playback, which can turn a 40 s query into one that
+    # does not finish; the first attempt re-enables it (a value sliced away is irrelevant to the failed check; if the
+    # sliced playback does not reproduce natively, the unsliced run is the fall-back)
+    st, info = _replay_failure_with(run, r, wsdir, sp, h, item, logdir, root, ["-Z", "unstable-options", "--cbmc-args", "--slice-formula"], 1200)
+    if st == "inconclusive":
+        st2, info2 = _replay_failure_with(run, r, wsdir, sp, h, item, logdir, root, [], 1800)
+        if st2 != "inconclusive":
+            return st2, info2
+    return st, info
+
+
+def _replay_failure_with(run, r, wsdir, sp, h, item, logdir, root, cbmc_extra, cap):
     descs = [f["desc"] for f in r["failed"]]
     kw = dict(no_default=True, features=ws.FEATURES) if sp.features else {}
-    r2 = kani.run(wsdir, sp.crate, h, logdir + "/cex", os.path.join(root, "tk%d" % item.get("spec", 0), "t0"), 1800,
-                  extra=["-Z", "concrete-playback", "--concrete-playback=print"], modpath=sp.modpath, **kw)
+    r2 = kani.run(wsdir, sp.crate, h, logdir + "/cex", os.path.join(root, "tk%d" % item.get("spec", 0), "t0"), cap,
+                  extra=["-Z", "concrete-playback", "--concrete-playback=print"] + cbmc_extra, modpath=sp.modpath, **kw)
     tests = playback_tests(open(r2["log"], errors="replace").read())
     # prefer the playback of a failed assertion / its CEX cover
     chosen = None
